@@ -65,7 +65,7 @@ PROPS = {
     },
     'C13': {
         'modules': ['contracts.C13_multipart'],
-        'deps': [{'module': 'contracts.C14_readers', 'prop': 'C14', 'filters': ['peek', 'read_until', 'pipe_until', 'delimit', '.read[', '_read[', 'exhaust']},
+        'deps': [{'module': 'contracts.C14_readers', 'prop': 'C14', 'filters': None},  # every deductive reader contract (sync + async): the parser's stubs rest on all of them, incl. the source wrapper _iter_normalized (seed C13-asgi-normalized-flush-small-chunk)
                  {'module': 'contracts.C15_headers', 'prop': 'C15', 'filters': ['secure_filename_alphabet']}],
         'level': 'proof',
         'level_text': 'Multipart limits exactly at their thresholds (buffered part size: raises iff content > max, on every call; part count: loop invariant '
@@ -110,7 +110,7 @@ PROPS = {
                       'symbolic names), Set-Cookie guard invariant, typed header properties through the real factory, emission lists for WSGI and ASGI, cookie '
                       'attribute table against a recording jar, unset_cookie, append_link; encoders applied on every path.',
         'level_note': 'str.lower is an uninterpreted idempotent function; uri encoders and secure_filename are opaque (C10); http.cookies is replaced by a recording '
-                      'jar in symbolic runs (real SimpleCookie in replays); set_headers unrolled for 0..3 pairs.',
+                      'jar in symbolic runs (real SimpleCookie in replays); set_headers for an iterable of arbitrary length by a loop contract (map == in-order fold), plus the unrolled lengths 0..3 whose counter-models replay.',
     },
     'C19': {
         'modules': ['contracts.C19_concurrency'],
@@ -118,7 +118,8 @@ PROPS = {
         'level_text': 'SUFFICIENT CONDITIONS only (no schedules are explored): lock discipline, double check and publication order of the lazy router compile '
                       '(the real _compile_and_find executed with a ghost lock, including another thread finishing the compile while this one waits); frame '
                       'conditions on the extracted AST of every function of the request path (no store to an attribute of the app/router, no global); '
-                      'per-call allocation of req/resp/params/dependent stack; process-wide caches memoise functions without shared side effects.',
+                      'per-call allocation of req/resp/params/dependent stack; process-wide caches memoise functions without shared side effects; request-time methods of the '
+                      'objects every request shares (route converters, media handlers, static routes, CORS middleware; classes discovered per module) store nothing on self.',
         'level_note': 'Assumes CPython attribute reads/writes are atomic and in program order, a correct threading.Lock, thread-safe functools.lru_cache, and user '
                       'callables without shared state. The serialisability statement itself is not decided; category other says so.',
         'technique': 'contract-based sufficient conditions: ghost-lock contract on the real lazy-compile function (symbolic execution, z3) plus frame (ownership) '
